@@ -169,6 +169,9 @@ struct World {
 
 const NAMES: [&str; 2] = ["A", "B"];
 
+/// Armed in `main`: a stimulus that never returns ends the run with the stimulus list as failing input.
+static WATCH: std::sync::OnceLock<pvh::Watchdog> = std::sync::OnceLock::new();
+
 /// Validity under PROTOCOL.md (same rules as the reference codec of the codec harness).
 fn frame_valid(hexs: &str) -> bool {
     let Some(b) = unhex(hexs) else { return false };
@@ -297,6 +300,10 @@ impl World {
         let parked_before = matches!(t[0], "write" | "wpush") && t.len() >= 3 && t[1].parse::<usize>().ok().and_then(|h| self.view[e].handles.get(h).map(|hi| (h, hi))).is_some_and(|(h, hi)| {
             hi.alive && !hi.shutdown && hi.pending_op == t[0] && hi.pending_write.is_some() && hi.pending_write == unhex(t[2]) && self.sims[e].wstate(h) == "parked"
         });
+        if let Some(wd) = WATCH.get() {
+            if self.steps.is_empty() { wd.begin(self.header_lines()); }
+            wd.stimulus(&line);
+        }
         let out = if t[0] == "wstate" {
             self.sims[e].wstate(t[1].parse().unwrap_or(0))
         } else {
@@ -1235,6 +1242,23 @@ fn run_case(r: &mut Rng, focus: Focus, len: usize) -> World {
                         w.stim(e, &[s("wpush"), s(h), hexz(&d)]);
                         continue;
                     }
+                    // a vectored write of very many small slices (more than any helper hands over at once)
+                    if matches!(focus, Focus::C02 | Focus::C03 | Focus::C04 | Focus::C05) && hi.pending_write.is_none() && r.chance(1, 30) {
+                        let n = r.range(65, 200) as usize;
+                        let tag = tags[e].wrapping_add(h as u8 * 37);
+                        let off = hi.written.len();
+                        let mut t = vec![s("writev"), s(h)];
+                        let mut k = 0;
+                        while k < n {
+                            let len = (r.range(1, 3) as usize).min(n - k);
+                            let piece: Vec<u8> = (k..k + len).map(|j| tag.wrapping_add(((off + j) % 251) as u8)).collect();
+                            t.push(hexd(&piece));
+                            if r.chance(1, 10) { t.push(s("-")); }
+                            k += len;
+                        }
+                        w.stim(e, &t);
+                        continue;
+                    }
                     let data = hi.pending_write.clone().unwrap_or_else(|| gen_payload(r, tags[e].wrapping_add(h as u8 * 37), hi.written.len()));
                     if r.chance(1, 6) && data.len() >= 2 && hi.pending_write.is_none() {
                         let cut = r.range(0, data.len() as u64) as usize;
@@ -1278,6 +1302,20 @@ fn run_case(r: &mut Rng, focus: Focus, len: usize) -> World {
                 0 => { w.stim(e, &[s("deliver"), s("close")]); }
                 1 => { w.stim(e, &[s("deliver"), s("err")]); }
                 2 => { w.stim(e, &[s("deliver"), s("eof")]); }
+                // a peer that ignores the window: more Push frames on an established flow than it was granted
+                3 | 7 if matches!(focus, Focus::C10 | Focus::C03 | Focus::C06 | Focus::C02) && r.chance(1, 2) && !w.est[e].is_empty() && !w.view[e].exited => {
+                    let mut ids: Vec<u32> = w.est[e].keys().copied().collect();
+                    ids.sort_unstable();
+                    let id = *r.pick(&ids);
+                    w.injected = true;
+                    let n = w.opts[e].rwnd + r.range(1, 3) as u32;
+                    for k in 0..n {
+                        let mut f = vec![0x74u8];
+                        f.extend_from_slice(&id.to_be_bytes());
+                        f.push(0xe0 | (k as u8 & 15));
+                        w.stim(e, &[s("deliver"), s("bin"), hexd(&f)]);
+                    }
+                }
                 3 => { w.injected = true; let n = r.range(0, 6) as usize; w.view[e].terminated_by = Some("bad".into()); let mut b = r.bytes(n); if !b.is_empty() { b[0] = 0x79; } w.stim(e, &[s("deliver"), s("bin"), hexd(&b)]); }
                 4 if w.sims[e].pending_futures() == 0 && w.view[e].mux_alive => { w.stim(e, &[s("dropmux")]); }
                 5 | 6 if !matches!(focus, Focus::C10) => {
@@ -2080,6 +2118,7 @@ fn main() {
     pvh::quiet_panics();
     let args = Args::parse();
     let focus = Focus::parse(args.opt("--focus").unwrap_or("C02"));
+    let _ = WATCH.set(pvh::Watchdog::start(args.out.clone(), "mux", args.seed, args.tier, format!("{}:stuck-in-call", focus.name()), std::time::Duration::from_secs(20)));
     if let Some(p) = &args.replay {
         let text = std::fs::read_to_string(p).expect("read replay");
         let v: pvh::Value = serde_json::from_str(&text).expect("json");
